@@ -107,7 +107,12 @@ func (m *FloodSub) Execute(ctx context.Context) error {
 			// if !s.initiator {
 			if initSet == nil {
 				initSet = make([]*SubscriptionOpts, 0, len(m.channels))
-				for chid := range m.channels {
+				for chid, chm := range m.channels {
+					// a channel whose last subscription was released is
+					// swept below: do not announce it to the new peer.
+					if len(chm) == 0 {
+						continue
+					}
 					initSet = append(initSet, &SubscriptionOpts{
 						ChannelId: chid,
 						Subscribe: true,
